@@ -366,7 +366,8 @@ func (s *Stack) Invoke(caller int, payload []byte, label string, clientCtx, trac
 	label = s.noteBody(payload, label)
 	w := &respWriter{hdr: http.Header{}}
 	inv := &interop.Invoke{
-		ID: fmt.Sprintf("fe-%d-%d", caller, k),
+		// the id a caller supplies is not the request id (the emulator draws its own): the same one every time
+		ID: "caller-supplied-id",
 		// the alias qualifier identifies the invocation in everything rendered from it
 		InvokedFunctionArn: fmt.Sprintf("arn:aws:lambda:us-east-1:012345678912:function:test_function:k%d", k),
 		TraceID:            traceID,
@@ -418,14 +419,14 @@ func (s *Stack) do(p *Proc, method, path string, hdr map[string]string, body []b
 	// "X-Verif-Detached" the connection is not tied to the life of the sending process (a helper that outlives it)
 	slow, isSlow := hdr["X-Verif-Slow-Body"]
 	if isSlow && body != nil {
-		rd = &slowBody{data: body, half: len(body) / 2, at: func() { s.Gates.at("drv.body:" + slow) }}
+		rd = &slowBody{data: body, half: len(body) / 2, at: func() { s.Gates.at("drv.body:" + slow) }, abort: hdr["X-Verif-Abort-Body"] != ""}
 	}
 	req, err := http.NewRequest(method, "http://"+api+path, rd)
 	if err != nil {
 		return CallResult{NetErr: err.Error()}
 	}
-	if isSlow && body != nil {
-		req.ContentLength = int64(len(body))
+	if isSlow && body != nil && hdr["X-Verif-Chunked"] == "" {
+		req.ContentLength = int64(len(body)) // otherwise the length is not declared: chunked transfer encoding
 	}
 	if p != nil && !(isSlow && hdr["X-Verif-Detached"] != "") {
 		req = req.WithContext(p.ctx)
@@ -433,13 +434,16 @@ func (s *Stack) do(p *Proc, method, path string, hdr map[string]string, body []b
 		req = req.WithContext(s.ctx)
 	}
 	for k, v := range hdr {
-		if k == "X-Verif-Slow-Body" || k == "X-Verif-Detached" {
+		if strings.HasPrefix(k, "X-Verif-") {
 			continue
 		}
 		req.Header.Set(k, v)
 	}
 	resp, err := s.HTTP.Do(req)
 	if err != nil {
+		if isSlow && hdr["X-Verif-Abort-Body"] != "" {
+			return CallResult{NetErr: "aborted"} // the sender itself broke the connection in the middle of the body
+		}
 		return CallResult{NetErr: "neterr"}
 	}
 	defer resp.Body.Close()
@@ -465,6 +469,7 @@ type slowBody struct {
 	half   int
 	pos    int
 	paused bool
+	abort  bool // after the pause the upload fails instead of continuing
 	at     func()
 }
 
@@ -478,6 +483,11 @@ func (b *slowBody) Read(p []byte) (int, error) {
 	} else if !b.paused {
 		b.paused = true
 		b.at()
+		if b.abort {
+			return 0, io.ErrUnexpectedEOF
+		}
+	} else if b.abort {
+		return 0, io.ErrUnexpectedEOF
 	}
 	n := copy(p, b.data[b.pos:end])
 	b.pos += n
